@@ -7,6 +7,7 @@ use tokio::time::timeout;
 use tracing::Instrument;
 
 use dns_types::protocol::types::*;
+use dns_types::zones::types::{ZoneResult, Zones};
 
 use crate::context::Context;
 use crate::local::{resolve_local, LocalResolutionResult};
@@ -189,7 +190,7 @@ async fn resolve_with_nameserver_response<'a>(
     nameserver_response: NameserverResponse,
     question: &Question,
 ) -> Result<Result<ResolvedRecord, ResolutionError>, Nameservers> {
-    match nameserver_response {
+    match cut_at_alias_into_local_data(context.zones, question.qtype, nameserver_response) {
         NameserverResponse::Answer { rrs, soa_rr, .. } => {
             tracing::trace!("got recursive answer");
             context.cache.insert_all(&rrs);
@@ -245,6 +246,43 @@ async fn resolve_with_nameserver_response<'a>(
             Ok(cname_answer)
         }
     }
+}
+
+/// What an upstream nameserver says about a name is never used where local
+/// data speaks for that name: if its answer follows an alias to a name in one
+/// of our authoritative zones, or to a name a hosts file or non-authoritative
+/// zone has records (of the type asked for, or an alias) for, keep the aliases
+/// up to and including that one, and let the caller resolve the target afresh
+/// - which consults the zones first.
+fn cut_at_alias_into_local_data(
+    zones: &Zones,
+    qtype: QueryType,
+    nameserver_response: NameserverResponse,
+) -> NameserverResponse {
+    let (NameserverResponse::Answer { rrs, .. } | NameserverResponse::CNAME { rrs, .. }) =
+        &nameserver_response
+    else {
+        return nameserver_response;
+    };
+
+    for (i, rr) in rrs.iter().enumerate() {
+        if let RecordTypeWithData::CNAME { cname } = &rr.rtype_with_data {
+            let is_local = match zones.resolve(cname, qtype) {
+                Some((zone, _)) if zone.is_authoritative() => true,
+                Some((_, ZoneResult::Answer { rrs })) => !rrs.is_empty(),
+                Some((_, ZoneResult::CNAME { .. } | ZoneResult::Delegation { .. })) => true,
+                Some((_, ZoneResult::NameError)) | None => false,
+            };
+            if is_local {
+                return NameserverResponse::CNAME {
+                    rrs: rrs[..=i].to_vec(),
+                    cname: cname.clone(),
+                };
+            }
+        }
+    }
+
+    nameserver_response
 }
 
 /// Helper function for resolving CNAMEs: resolve, and add some existing RRs to
